@@ -42,6 +42,23 @@ def main():
     if not ok:
         broken.append({'what': 'translator', 'name': 'tools/extract.py', 'log': log[-2000:]})
 
+    # ---- C++ builds from /repo's current working tree (sanitized library + harness)
+    lib, exe = None, None
+    if spec.get('harness'):
+        if spec.get('needs_lib', True):
+            lib, blog = C.build_lib()
+            if lib is None:
+                broken.append({'what': 'library-build', 'name': 'sanitized build of /repo/src', 'log': blog[-3000:]})
+        if lib is not None or not spec.get('needs_lib', True):
+            exe, hlog = C.build_harness(spec['harness'], lib, extra_flags=spec.get('harness_flags', ()))
+            if exe is None:
+                broken.append({'what': 'harness-build', 'name': spec['harness'], 'log': hlog})
+    if spec.get('post_build'):
+        try:
+            spec['post_build'](C, lib, exe)
+        except Exception as e:  # a generator that cannot find its site is a broken tie
+            broken.append({'what': 'translator', 'name': 'post_build: %s' % e})
+
     # ---- L1 Lean build + audit
     mods = spec.get('lean_modules', [])
     theorems = spec.get('theorems', [])
@@ -80,16 +97,6 @@ def main():
     distinct = set()
     harness_done = True
     if spec.get('harness'):
-        lib, blog = (None, '')
-        if spec.get('needs_lib', True):
-            lib, blog = C.build_lib()
-            if lib is None:
-                broken.append({'what': 'library-build', 'name': 'sanitized build of /repo/src', 'log': blog[-3000:]})
-        exe = None
-        if lib is not None or not spec.get('needs_lib', True):
-            exe, hlog = C.build_harness(spec['harness'], lib, extra_flags=spec.get('harness_flags', ()))
-            if exe is None:
-                broken.append({'what': 'harness-build', 'name': spec['harness'], 'log': hlog})
         if exe is not None:
             to = spec.get('timeout', {}).get(tier, 600 if tier == 'quick' else 3600)
             lines, crashes, harness_done = C.run_harness(exe, seed, tier, to, case_timeout=spec.get('case_timeout', 60), only=only, limit=a.limit)
